@@ -72,9 +72,15 @@ def run(ctx, driver):
                                                                   "how_to_replay": "h2x.run_one(runtime, cfg, seed)"})
     # HTTP/2, callers cancelled at *any* suspension point (also while parked in a write) and SETTINGS frames arriving in the same read as
     # other streams' DATA: whatever else such a cancellation costs (see DESIGN §10), a body that is delivered as complete is the one sent
-    for i in range((150 if ctx.quick else 4000) * (4 if ctx.broken else 1)):
-        cfg = dict(H2_PROFILE, callers=rng.randint(2, 5), coalesce=rng.random() < 0.7, p_settings=0.4, p_cancel=0.4, cancel_phase="any",
-                   segment=rng.choice(["whole", "coarse"]), max_steps=150)
+    for i in range((300 if ctx.quick else 6000) * (4 if ctx.broken else 1)):
+        cfg = dict(H2_PROFILE, callers=rng.randint(2, 5), coalesce=True, p_settings=0.4, cancel_phase="any", segment=rng.choice(["whole", "coarse"]),
+                   max_steps=150, p_rst=0.0, abandon=False, downs=[3000], ups=[0])
+        if i % 3:
+            # one caller is cancelled while it is parked in a write of the response phase (credit, SETTINGS acknowledgement); nobody else is
+            # disturbed, so every other caller must still get exactly its own body
+            cfg.update(p_cancel=0.0, p_cancel_writer=0.6, max_cancel_writer=1)
+        else:
+            cfg.update(p_cancel=0.4, downs=[0, 10, 3000], ups=[0, 5, 300])
         seed = rng.randrange(1 << 30)
         rt = ("asyncio", "trio")[i % 2]
         ex = h2x.run_one(rt, cfg, seed)
